@@ -1042,7 +1042,7 @@ func TestZZVRouteTrace(t *testing.T) {
 	defer f.Close()
 	tw := &zzvTraceW{w: bufio.NewWriterSize(f, 1<<20)}
 	defer tw.w.Flush()
-	rng := mrand.New(mrand.NewSource(zzvSeed()*7919 + 11))
+	rng := mrand.New(mrand.NewSource(zzvSeed()*7919 + 11 + int64(zzvEnvInt("ZZV_CHUNK", 0))*104729))
 	const W = 3
 	agents := []string{"a", "b", "c", "p", "q", "r"}
 	peers := []string{"p", "q", "r"}
